@@ -15,9 +15,9 @@ go build ./... >/dev/null 2>&1 && echo "build: ok" || echo "build: FAIL"
 go test -vet=off -count=1 ./... >/tmp/seed/$P.test.log 2>&1 && echo "tests: pass" || { echo "tests: FAIL"; tail -5 /tmp/seed/$P.test.log; }
 RUN=$(ls demo/run.sh 2>/dev/null)
 if [ -n "$RUN" ]; then
-  (timeout 900 sh demo/run.sh >/tmp/seed/$P.demo.with.log 2>&1); WITH=$?
+  (timeout 900 bash demo/run.sh >/tmp/seed/$P.demo.with.log 2>&1); WITH=$?
   git apply -R /tmp/seed/$P.patch
-  (timeout 900 sh demo/run.sh >/tmp/seed/$P.demo.without.log 2>&1); WITHOUT=$?
+  (timeout 900 bash demo/run.sh >/tmp/seed/$P.demo.without.log 2>&1); WITHOUT=$?
   git apply /tmp/seed/$P.patch
   echo "demo: with change exit=$WITH, without exit=$WITHOUT"
 else
